@@ -1018,6 +1018,11 @@ func init() {
 			"Heterogeneous lists and the empty list for Sort are outside the property's domain.",
 		Rules: []Rule{
 			{ID: "C17.R1", Doc: "Sort: kind test on element 0 <-> typed slice of that kind <-> trusted sort function on that slice <-> NewListFrom(slice) spine handed to the receiver; no kind => panic before any write; fluent return", Run: c17Sort},
+			{ID: "C17.R4", Doc: "the typed slice Sort starts from holds every element of that kind, in order (= C14 on StringSlice/IntSlice/FloatSlice)", Run: func(c *Ctx) {
+				c.R.Floor("C17.R4", runAs(c, "C17.R4", c14Run, func(o *Obligation) bool {
+					return strings.Contains(o.Construct, "(*list).StringSlice/") || strings.Contains(o.Construct, "(*list).IntSlice/") || strings.Contains(o.Construct, "(*list).FloatSlice/")
+				}), 3)
+			}},
 			{ID: "C17.R3", Doc: "the rebuild through NewListFrom keeps every element: the From-constructor copies element-wise without filtering (= C12.R2)", Run: func(c *Ctx) {
 				c.R.Floor("C17.R3", runAs(c, "C17.R3", c12R2, func(o *Obligation) bool { return strings.Contains(o.Construct, "NewListFrom") }), 1)
 			}},
